@@ -652,6 +652,22 @@ static void vf_neutral_name(const char *in, char *out, size_t ol) {
     else if (strchr("sdcz", p[0]) && p[0] && !strcmp(p + 1, "fill")) p[0] = 'X';
 }
 enum { VF_OK = 0, VF_EXIT, VF_SIGNAL, VF_ASAN, VF_TIMEOUT, VF_FAULT };
+/* stderr of a forked child is captured in an anonymous file of the parent: UBSan prints its reports there (not into the ASan log), and the first
+   frame of its stack trace names the function for the crash signature.  vf_err_prepare() in the parent before fork(), vf_err_child() first thing in
+   the child. */
+static int vf_errfd = -1;
+static void vf_err_prepare(void) { if (vf_errfd < 0) vf_errfd = memfd_create("vf-stderr", 0); if (vf_errfd >= 0) { if (ftruncate(vf_errfd, 0)) {} lseek(vf_errfd, 0, SEEK_SET); } }
+static void vf_err_child(void) { if (vf_errfd >= 0) dup2(vf_errfd, 2); }
+static int vf_err_ubsan(char *out, size_t ol) {
+    if (vf_errfd < 0) return 0;
+    static char buf[8192]; off_t len = lseek(vf_errfd, 0, SEEK_END); if (len <= 0) return 0; if (len > (off_t)sizeof buf - 1) len = sizeof buf - 1;
+    lseek(vf_errfd, 0, SEEK_SET); ssize_t q = read(vf_errfd, buf, (size_t)len); if (q <= 0) return 0; buf[q] = 0;
+    char *p = strstr(buf, "runtime error: "); if (!p) return 0;
+    char *f0 = strstr(p, "#0 "); char fn[128] = "?";
+    if (f0) { char *in = strstr(f0, " in "); if (in) sscanf(in + 4, "%127s", fn); }
+    char nn[160]; vf_neutral_name(fn, nn, sizeof nn);
+    snprintf(out, ol, "undefined-behaviour@%s", nn); return 1;
+}
 typedef void (*vf_case_fn)(long idx, void *ctx);
 typedef void (*vf_death_fn)(long idx, int kind, int code, const char *note, void *ctx);
 static void vf_alarm(int s) { (void)s; _exit(97); }
@@ -667,10 +683,10 @@ static void vf_run_isolated(long lo, long hi, vf_case_fn fn, vf_death_fn on_deat
     long next = lo;
     while (next < hi) {
         vf_sh->cur = next; vf_sh->done = 0; vf_sh->note[0] = 0; vf_sh->where[0] = 0;
-        fflush(NULL);
+        fflush(NULL); vf_err_prepare();
         pid_t pid = fork();
         if (pid == 0) {
-            signal(SIGALRM, vf_alarm); vf_install_fault_handlers();
+            vf_err_child(); signal(SIGALRM, vf_alarm); vf_install_fault_handlers();
             /* the per-case limit is CPU time of the child (ITIMER_PROF: an endless loop burns it, a loaded machine does not), with a
                generous wall-clock limit behind it for a case that blocks without using the CPU */
             for (long i = next; i < hi; i++) { vf_sh->cur = i; vf_case_timer(timeout_s); fn(i, ctx); }
@@ -724,6 +740,7 @@ static int vf_asan_summary(pid_t pid, char *out, size_t ol) {
 static void vf_crash_desc(int kind, int code, char *out, size_t ol) {
     char sm[256];
     if (kind == VF_ASAN && vf_asan_summary(vf_last_child, sm, sizeof sm)) { snprintf(out, ol, "sanitizer:%s", sm); return; }
+    if (kind == VF_ASAN && vf_err_ubsan(sm, sizeof sm)) { snprintf(out, ol, "sanitizer:%s", sm); return; }
     if (kind == VF_FAULT && vf_sh) { char nn[128]; vf_neutral_name((const char *)vf_sh->where, nn, sizeof nn); snprintf(out, ol, "fault:%s", nn); }
     else if (kind == VF_EXIT) snprintf(out, ol, "exit:%d", code);
     else if (kind == VF_SIGNAL) snprintf(out, ol, "signal:%d", code);
